@@ -585,6 +585,11 @@ func capturedValue(v ssa.Value, chain []*ssa.Call, sch *ssa.Function) (ssa.Value
 					if cell.Parent() == sch {
 						return cell, true
 					}
+					// captured in a helper that schedule calls to start the generation and that hands back the test as a
+					// closure (current := t.newGeneration()): as good as schedule's own local
+					if scheduleCalls(sch, cell.Parent()) {
+						return cell, true
+					}
 					// the spill of a parameter of the arming helper (captured by the callback): the parameter
 					if sts := storesTo(cell); len(sts) == 1 && len(armChain) > 0 {
 						if prm, ok := sts[0].Val.(*ssa.Parameter); ok && prm.Parent() == cell.Parent() {
@@ -737,6 +742,38 @@ func ruleTickGate(c *Ctx, r *R) {
 				if !a.send {
 					continue
 				}
+				// a send inside a method of a channel type / a helper that is handed the channel (t.c.offer(now)): judged at
+				// each call site that hands in the ticker's channel field
+				if prm, isP := a.ch.(*ssa.Parameter); isP && prm.Parent() == fn && fn.Parent() == nil {
+					pi := paramIndex(prm)
+					for _, site := range callSitesOf(c, fn) {
+						if pi >= len(site.Call.Args) {
+							continue
+						}
+						sld, ok := site.Call.Args[pi].(*ssa.UnOp)
+						if !ok || sld.Op != token.MUL {
+							continue
+						}
+						sfa, ok := sld.X.(*ssa.FieldAddr)
+						if !ok || !isTickerOwned(sfa.X.Type()) {
+							continue
+						}
+						n++
+						key := "xtime|tick-send#" + itoa(n)
+						host := site.Parent()
+						r.ok(genGated(c, host, site.Block(), nil, genF, sch, 0), key+"|gen-gate", site.Pos(), "a tick may be sent only under t.gen == gen (the generation captured when this timer was armed); otherwise a callback that was already running delivers a tick after Stop/Reset")
+						r.ok(!op.blocking, key+"|non-blocking", posOf(op.in), "the tick send must be non-blocking (it runs with the lock held)")
+						held := locksIn(host, entryLocks(c, host, 0))
+						locked := false
+						for lk := range held[site] {
+							if strings.HasSuffix(lk, ".m") {
+								locked = true
+							}
+						}
+						r.ok(locked, key+"|under-lock", site.Pos(), "the generation test and the send must happen with t.m held")
+					}
+					continue
+				}
 				// the ticker's own channel field
 				ld, ok := a.ch.(*ssa.UnOp)
 				if !ok {
@@ -798,14 +835,21 @@ func ruleTickGate(c *Ctx, r *R) {
 				if cell, isCell := cv.(*ssa.Alloc); isCell {
 					ok = false
 					for _, st := range storesTo(cell) {
-						if st.Parent() == sch {
+						if st.Parent() == sch || st.Parent() == bumpAt.Parent() || scheduleCalls(sch, st.Parent()) {
 							if vi, ok2 := st.Val.(ssa.Instruction); ok2 {
 								src, ok = vi, true
 							}
 						}
 					}
 				}
-				if !ok || src.Parent() != sch {
+				// (bump and capture may both live in a helper schedule calls: current := t.newGeneration())
+				bumpAt := bumpAt
+				if ok && src.Parent() != sch && src.Parent() != bumpAt.Parent() && scheduleCalls(sch, src.Parent()) {
+					if hb, okH := bumpsGen(src.Parent(), genF, 0); okH && hb != nil {
+						bumpAt = hb
+					}
+				}
+				if !ok || (src.Parent() != sch && src.Parent() != bumpAt.Parent()) {
 					continue
 				}
 				if src == bumpAt || (bumpAt.Block().Dominates(src.Block()) && (bumpAt.Block() != src.Block() || idxIn(bumpAt) < idxIn(src))) {
@@ -1225,4 +1269,20 @@ func isTickerOwned(t types.Type) bool {
 		}
 	}
 	return false
+}
+
+// scheduleCalls: sch contains a static call of f.
+func scheduleCalls(sch, f *ssa.Function) bool {
+	if f == nil || f.Parent() != nil {
+		return false
+	}
+	found := false
+	instrs(sch, func(_ *ssa.BasicBlock, _ int, in ssa.Instruction) {
+		if call, ok := in.(*ssa.Call); ok {
+			if cal := call.Call.StaticCallee(); cal != nil && origin(cal) == origin(f) {
+				found = true
+			}
+		}
+	})
+	return found
 }
